@@ -746,4 +746,23 @@ example :
 
 end HandlePkt
 
+/-! ## ingress batches (`udp_ingress_batch.go`) -/
+section IngressBatch
+open Batch
+
+/-- **One exclusive buffer per packet.**  After any sequence of `ReadBatch` / `Take` calls, a buffer
+that `Take` handed to a packet's task is never written by a later `ReadBatch` (the slot was given a
+fresh buffer), and the buffers the slots own stay pairwise different: a task that waits in its flow's
+queue forwards the bytes of its own datagram. -/
+theorem ingress_taken_buffer_never_rewritten (n : Nat) (ops : List Op) (pkts : List (List Nat)) (b : Nat)
+    (hb : b ∈ (run (init n) ops).taken) :
+    (readBatch (run (init n) ops) pkts).bufs b = (run (init n) ops).bufs b ∧
+    (owned (run (init n) ops).slots).Nodup :=
+  ⟨readBatch_keeps_taken (run_inv ops _ (inv_init n)) pkts b hb, (run_inv ops _ (inv_init n)).2.1⟩
+
+example : (run (init 2) [.read [[7], [8]], .take 0, .read [[9], [10]]]).bufs 0 = [7] ∧
+    (run (init 2) [.read [[7], [8]], .take 0, .read [[9], [10]]]).taken = [0] := by decide
+
+end IngressBatch
+
 end DaeVerif.C13.Props
